@@ -7,7 +7,7 @@ from ..ast import bind, show, walk, is_var, structure, C, L
 from ..fingerprint import fingerprint, diff, memo_state, memo_changed
 
 ID = "C18"
-RULE = ("Mode H: 5 base configurators (no rule; one defaulted rule; two rules; a top-level boolean item plus a rule; a top-level integer item plus a rule) x ALL sequences of length <=3 "
+RULE = ("Mode H: 5 base configurators, each built with an explicit id and (one step shallower) without an id (no rule; one defaulted rule; two rules; a top-level boolean item plus a rule; a top-level integer item plus a rule) x ALL sequences of length <=3 "
         "(quick) / <=4 (thorough) over a menu of 9 rules (plain, defaulted, implication rules, generated and explicit ids, one whose id "
         "collides with an existing rule id, two whose id equals a top-level item - one of them an item with other bounds than (0,1)). Every prefix is a state; transition = add(rule) on the "
         "real object. oracle: after every accepted addition the configurator has the same structural key, default priorities, polyhedron "
@@ -16,7 +16,7 @@ RULE = ("Mode H: 5 base configurators (no rule; one defaulted rule; two rules; a
         "top-level proposition is refused at whatever position, leaving the configurator unchanged. non-trivial = distinct sequence with at "
         "least one accepted addition")
 ASSUMPTIONS = ["caches are cleared before each comparison (C09 owns cache state)"]
-BOUNDS = {"quick": "5 bases x sequences of length <=3 over 9 rules", "thorough": "5 bases x sequences of length <=4"}
+BOUNDS = {"quick": "5 bases x sequences of length <=3 over 9 rules (<=2 from the id-less base)", "thorough": "5 bases x sequences of length <=4 (<=3 from the id-less base)"}
 
 
 def bases():
@@ -48,16 +48,18 @@ def shards(tier):
     out = []
     for bi in range(len(bases())):
         for first in range(len(menu())):
-            out.append((bi, first, depth))
+            out.append((bi, first, depth, "cfg"))
+            # the same histories from a base built WITHOUT an id (it carries a generated one, which add() must keep as well)
+            out.append((bi, first, depth - 1, None))
     return out
 
 
 def run_shard(desc, acc, tier):
-    bi, first, depth = desc
+    bi, first, depth, cid = desc
     n = len(menu())
     for ln in range(1, depth + 1):
         for rest in itertools.product(range(n), repeat=ln - 1):
-            check_seq(bi, (first,) + rest, acc)
+            check_seq(bi, (first,) + rest, acc, cid)
 
 
 def observe(cfg):
@@ -72,19 +74,19 @@ def observe(cfg):
         sel = [sorted((repr(k), int(v)) for k, v in s[0].items()) for s in cfg.select(*[dict(p) for p in prios], solver=cfgspace.Capture("exact"))]
     leafs = [repr(v) for v in cfg.leafs()]
     clear_caches()
-    return {"structure": structure(cfg), "poly": poly, "default_prios": dp, "select": sel, "leafs": leafs, "id": cfg.id,
+    return {"structure": structure(cfg), "poly": poly, "default_prios": dp, "select": sel, "leafs": leafs, "id": cfg.id, "generated_id": cfg.generated_id,
             "class": type(cfg).__name__, "errors": [str(e) for e in cfg.errors()]}
 
 
-def check_seq(bi, seq, acc):
+def check_seq(bi, seq, acc, cid="cfg"):
     bname, brules = bases()[bi]
     mn = menu()
-    case = {"base": bi, "seq": list(seq)}
-    desc = {"base": bname, "sequence": [mn[j][0] for j in seq]}
+    case = {"base": bi, "seq": list(seq), "cid": cid}
+    desc = {"base": bname, "sequence": [mn[j][0] for j in seq], "configurator_id": cid}
     acc.n("traces")
-    acc.state((bi, seq))
+    acc.state((bi, seq, cid))
     try:
-        base = cc.StingyConfigurator(*[bind(r)[0] for r in brules], id="cfg")
+        base = cc.StingyConfigurator(*[bind(r)[0] for r in brules], id=cid)
     except BaseException as e:
         acc.violation(None, case, dict(desc, what="base construction raised", exc=repr(e)))
         return
@@ -132,11 +134,11 @@ def check_seq(bi, seq, acc):
         if refused:
             continue
         accepted.append(j)
-        if nxt is cur or type(nxt) is not cc.StingyConfigurator or nxt.id != base.id or nxt.generated_id != base.generated_id:
+        if nxt is cur or type(nxt) is not cc.StingyConfigurator or nxt.id != base.id or (cid is not None and nxt.generated_id != base.generated_id):
             acc.violation(None, case, dict(desc, what="add() did not return a new configurator with the same id", position=pos, got_id=repr(nxt.id)))
             return
         try:
-            direct = cc.StingyConfigurator(*[bind(r)[0] for r in brules], *[bind(mn[a][1])[0] for a in accepted], id="cfg")
+            direct = cc.StingyConfigurator(*[bind(r)[0] for r in brules], *[bind(mn[a][1])[0] for a in accepted], id=base.id)
             o_add = observe(nxt)
             o_dir = observe(direct)
         except BaseException as e:
@@ -156,10 +158,10 @@ def check_seq(bi, seq, acc):
         memos.append(memo_state({"c": nxt}))
         cur = nxt
     if accepted:
-        acc.nontriv((bi, seq))
+        acc.nontriv((bi, seq, cid))
     if len(seq) == 2 and seq[0] == seq[1] == 0:
         acc.sample(dict(desc, accepted=[mn[a][0] for a in accepted]))
 
 
 def replay(case, acc):
-    check_seq(case["base"], tuple(case["seq"]), acc)
+    check_seq(case["base"], tuple(case["seq"]), acc, case.get("cid", "cfg"))
